@@ -788,6 +788,13 @@ func (u *Unit) specCall(env *specEnv, x *ast.CallExpr) Val {
 		}
 		v.T = T
 		return v
+	case "bstr":
+		// bstr(b): string(b) for the current content of byte slice b
+		v := u.specEval(env, x.Args[0])
+		if v.Kind != KSlice {
+			env.fail("bstr() needs a slice")
+		}
+		return scalar(u.strOfBytes(env.st, v), SStr, types.Typ[types.String])
 	case "strof":
 		// strof(b): the string a []byte(s) conversion result spells
 		v := u.specEval(env, x.Args[0])
@@ -941,6 +948,13 @@ func (u *Unit) ghostRead(env *specEnv, g *GhostField, args []Val) Val {
 		sort = sArr(ks, sort)
 	}
 	t := u.heapTerm(env.st, "G$"+g.Name, sort)
+	if r := u.root(); !r.ghostBounded[g.Name] && r.frontier0 != "" {
+		if r.ghostBounded == nil {
+			r.ghostBounded = map[string]bool{}
+		}
+		r.ghostBounded[g.Name] = true
+		u.ghostRefBound(env.st, env, g, smtName("G$"+g.Name)+"!0", sort, r.frontier0, true)
+	}
 	for _, a := range args {
 		t = tSel(t, a.S)
 	}
